@@ -239,6 +239,8 @@ def run(ctx) -> None:
     per = pmap(_percycle, [((m, s, True), 4 * max(m, s, 1) * (3 if ctx.thorough else 1) + 3) for m, s in small if m or s])
     for r in clo + dflt + per:
         ctx.merge_bucket(r["vb"])
+    from . import c13_machine
+    ctx.coverage["machine_level"] = c13_machine.run_machine(ctx)
     ctx.level = "model_checking"
     states = sum(r["states"] for r in clo)
     trans = sum(r["transitions"] for r in clo) + sum(r["n"] for r in dflt) + sum(r["n"] for r in per)
@@ -265,6 +267,10 @@ def run(ctx) -> None:
 
 
 def replay(ctx, w) -> Optional[str]:
+    if w.get("machine"):
+        from . import c13_machine
+        rb.build()
+        return c13_machine.replay(w)
     rb.build()
     cfg = tuple(w["cfg"])
     hist = tuple(tuple(e) for e in w["history"])
